@@ -190,3 +190,11 @@ Definition encode_toks (l : list tok) : list N :=
 Definition tokenize_flat (text : str) (full doc : bool) : list N :=
   let (r, st) := tokenize_items text full doc in
   status_code st :: encode_toks (toks_of r).
+
+Definition nbool (n : N) : bool := negb (n =? 0).
+(* ENTRY 1 entry_tokenize *)
+Definition entry_tokenize (args : list N) : list N :=
+  match args with
+  | full :: doc :: text => tokenize_flat text (nbool full) (nbool doc)
+  | _ => [999999]
+  end.
